@@ -102,7 +102,7 @@ where
     let shape = &case.shape;
     let mut job = Job { property: "C05".into(), scenario: format!("C05:{}:{}", case.name, curve), curve: curve.into(), seed, shape: serde_json::to_value(case).unwrap(), ..Default::default() };
     let pad = shape.padded();
-    let pc = PedersenGens::<SymA<C>>::default();
+    let pc = pc_for::<SymA<C>>(&shape.name, seed);
     let bp = BulletproofGens::<SymA<C>>::new(pad, 1);
     let bases = name_bases(&pc, &bp, pad);
     let shr = new_shared::<SymA<C>>(shape, &Default::default(), Box::new(SymVals::<C::ScalarField>::new(seed)));
@@ -384,7 +384,7 @@ pub fn c05_native<G: AffineRepr + 'static>(case: &C05Case, seed: u64, model: std
     let mut out = vec![];
     let shape = &case.shape;
     let pad = shape.padded();
-    let pc = PedersenGens::<G>::default();
+    let pc = pc_for::<G>(&shape.name, seed);
     let bp = BulletproofGens::<G>::new(pad, 1);
     let model2 = model.clone();
     let delta = model.get("delta0").and_then(|s| parse_rational::<G::ScalarField>(s)).filter(|d| !d.is_zero()).unwrap_or(G::ScalarField::from(seed + 3));
